@@ -172,6 +172,18 @@ def elementwise(cx, rng, t, u, d, e, ts=()):
     if d.ndim == 2 and len(ts) == 2 and ts[0] == ts[1]:      # transposition is well typed only between equal index types
         run_op(cx, 'mul-self-transposed', lambda: t.mul(t.T), lambda: d * d.T)
         run_op(cx, 'where-transposed-cond', lambda: t.where(t.T.gt(s0), u), lambda: torch.where(d.T > s0, d, e))
+    # broadcasting against a 0-dim PatternedTensor and against one whose dimensions all have size 1
+    I_ = env.mod('fggs.indices')
+    sv = rng.choice([0.5, 2.0, -1.0, 3.0])
+    sdef = rng.choice([0.0, 0.0, 1.0])
+    c0 = I_.PatternedTensor(torch.tensor(sv, dtype=d.dtype), (), (), sdef)
+    c1 = I_.PatternedTensor(torch.tensor(sv, dtype=d.dtype), (), tuple(I_.unitAxis for _ in range(d.ndim)), sdef)
+    for nm_, c_ in (('0dim', c0), ('unit-dims', c1)):
+        run_op(cx, f'add-broadcast-{nm_}', lambda: t.add(c_), lambda: d + sv)
+        run_op(cx, f'radd-broadcast-{nm_}', lambda: c_.add(t), lambda: sv + d)
+        run_op(cx, f'mul-broadcast-{nm_}', lambda: t.mul(c_), lambda: d * sv)
+        run_op(cx, f'sub-broadcast-{nm_}', lambda: t.sub(c_), lambda: d - sv)
+        run_op(cx, f'maximum-broadcast-{nm_}', lambda: t.maximum(c_), lambda: torch.maximum(d, torch.tensor(sv, dtype=d.dtype)))
     s = rng.choice([0.5, 2.0, -1.0, 0.0, 3])
     run_op(cx, 'add-scalar', lambda: t.add(s), lambda: d + s)
     run_op(cx, 'sub-scalar', lambda: t.sub(s), lambda: d - s)
